@@ -1105,6 +1105,8 @@ def to_str(I, x, node=None):
         return Sym(z3.If(x.t >= 0, z3.IntToStr(x.t), z3.Concat(z3.StringVal("-"), z3.IntToStr(-x.t))), "str")
     if isinstance(x, SObj) and "str" in x.ghost:
         return x.ghost["str"]
+    if isinstance(x, SObj) and isinstance(x.fields.get("__str__"), NativeFn):       # abstract object with a modelled __str__
+        return x.fields["__str__"].fn(I, [], {})
     if isinstance(x, SObj) and "addr" in x.ghost:
         from contracts.c18 import IPStr
         return IPStr(x.ghost["addr"])
